@@ -19,7 +19,7 @@ func New(src Source) *Rand        { return rand.New(src) }
 func Seed(seed int64)             {}
 
 func Uint64() uint64 { return zzsim.Aux() }
-func Uint32() uint32 { return uint32(zzsim.Aux() >> 32) }
+func Uint32() uint32 { return zzsim.AuxUint32() }
 func Int63() int64   { return int64(zzsim.Aux() >> 1) }
 func Int31() int32   { return int32(zzsim.Aux() >> 33) }
 func Int() int       { return int(uint(zzsim.Aux()) << 1 >> 1) }
